@@ -601,8 +601,16 @@ static void emitInst(const Instruction &I) {
     }
     case Instruction::FAdd: if (optDyadic >= 0) { b << lhs << "ll_fx_add(" << op(0) << ", " << op(1) << ");\n"; break; } b << lhs << op(0) << " + " << op(1) << ";\n"; break;
     case Instruction::FSub: if (optDyadic >= 0) { b << lhs << "ll_fx_sub(" << op(0) << ", " << op(1) << ");\n"; break; } b << lhs << op(0) << " - " << op(1) << ";\n"; break;
-    case Instruction::FMul: if (optDyadic >= 0) { b << lhs << "ll_fx_mul(" << op(0) << ", " << op(1) << ");\n"; break; } b << lhs << op(0) << " * " << op(1) << ";\n"; break;
-    case Instruction::FDiv: if (optDyadic >= 0) { b << lhs << "ll_fx_div(" << op(0) << ", " << op(1) << ");\n"; break; } b << lhs << op(0) << " / " << op(1) << ";\n"; break;
+    case Instruction::FMul: case Instruction::FDiv:
+      if (optDyadic >= 0) {
+        // multiplication/division by a constant that is not on the grid (e.g. 1/sqrt 2): exact only when the other operand is 0
+        auto offgrid = [&](const Value *v) { auto *cf = dyn_cast<ConstantFP>(v); return cf && fpLit(cf->getValueAPF(), true).rfind("LL_FX_INEXACT", 0) == 0; };
+        bool isMul = I.getOpcode() == Instruction::FMul;
+        if (offgrid(I.getOperand(1))) { b << lhs << "ll_fx_zero_or_fail(" << op(0) << ");\n"; break; }
+        if (isMul && offgrid(I.getOperand(0))) { b << lhs << "ll_fx_zero_or_fail(" << op(1) << ");\n"; break; }
+        b << lhs << (isMul ? "ll_fx_mul(" : "ll_fx_div(") << op(0) << ", " << op(1) << ");\n"; break;
+      }
+      b << lhs << op(0) << (I.getOpcode() == Instruction::FMul ? " * " : " / ") << op(1) << ";\n"; break;
     case Instruction::FRem: b << lhs << (t->isFloatTy() ? "fmodf(" : "fmod(") << op(0) << ", " << op(1) << ");\n"; break;
     case Instruction::FNeg: if (optDyadic >= 0) { b << lhs << "ll_fx_sub((ll_fx)0, " << op(0) << ");\n"; break; } b << lhs << "-" << op(0) << ";\n"; break;
     case Instruction::ICmp: {
